@@ -185,6 +185,14 @@ impl Sys {
             if let Some((which, pos, hint, rem)) = guard("C17", "event iterator size_hint", || Ok(world_event_size_hints(world)))? {
                 return vio!("C17", "size-hint-inexact", "world-level {} iterator: size_hint after {} items is {:?}, {} remain", which, pos, hint, rem);
             }
+            if let Some(m) = guard("C17", "event iterators (derived methods)", || Ok(world_events_derived(world)))? {
+                return vio!("C17", "derived-iterator-method-disagrees", "{}", m);
+            }
+            for a in self.sc.archs.clone() {
+                if let Some(m) = guard("C17", "event iterators (derived methods)", || Ok(with_arch!(a as usize, A => <A as Arch>::events_derived(world))))? {
+                    return vio!("C17", "derived-iterator-method-disagrees", "{}", m);
+                }
+            }
         }
         let _ = w;
         Ok(())
